@@ -432,6 +432,12 @@ func tempoCases(thorough bool) []*TempoCase {
 			}
 		}
 	}
+	for _, f := range floatGrid { // numeric attributes / durations over the whole grid
+		out = append(out, &TempoCase{Endpoint: "trace", H: "a", N: 1, U: 1, FBits: math.Float64bits(f)})
+		if !math.IsNaN(f) && !math.IsInf(f, 0) {
+			out = append(out, &TempoCase{Endpoint: "search_traceql", H: "a", N: 1, U: 1, FBits: math.Float64bits(f), Chunk: []int{1}})
+		}
+	}
 	return out
 }
 
